@@ -185,6 +185,19 @@ pub fn register(ctx: &mut Context) {
     hf_thisopt!(ctx, "o0_i", i64);
     hf_thisopt!(ctx, "o0_s", Arc<String>);
     hf_thisopt!(ctx, "o0_l", Arc<Vec<Value>>);
+    // the receiver extractor in a non-first position: parameters are consumed in declaration order
+    ctx.add_function("p2_iv", |a: i64, This(this): This<Value>| -> R {
+        log(json!(["p2_iv", enc(&Value::Int(a)), enc(&this)]));
+        Ok(Value::String(Arc::new("p2_iv".to_string())))
+    });
+    ctx.add_function("p3_ivi", |a: i64, This(this): This<Value>, b: i64| -> R {
+        log(json!(["p3_ivi", enc(&Value::Int(a)), enc(&this), enc(&Value::Int(b))]));
+        Ok(Value::String(Arc::new("p3_ivi".to_string())))
+    });
+    ctx.add_function("p3_ssv", |a: Arc<String>, b: Arc<String>, This(this): This<Arc<String>>| -> R {
+        log(json!(["p3_ssv", enc(&Value::String(a)), enc(&Value::String(b)), enc(&Value::String(this))]));
+        Ok(Value::String(Arc::new("p3_ssv".to_string())))
+    });
     // This + Arguments: receiver then all arguments
     ctx.add_function("ma", |This(this): This<Value>, Arguments(args): Arguments| -> R {
         let mut rec = vec![json!("ma"), enc(&this)];
